@@ -169,7 +169,12 @@ pub type TObject = Object<TManager>;
 const NB: Timeouts = Timeouts { wait: Some(Duration::ZERO), create: None, recycle: None };
 
 pub fn build(sh: &Arc<Sh>, max: usize) -> TPool {
-    Pool::builder(TManager { sh: sh.clone() }).max_size(max).build().unwrap()
+    build_mode(sh, max, false)
+}
+
+/// Both queue modes are exercised: nothing the thread-level oracles look at depends on the order of reuse.
+pub fn build_mode(sh: &Arc<Sh>, max: usize, lifo: bool) -> TPool {
+    Pool::builder(TManager { sh: sh.clone() }).max_size(max).queue_mode(if lifo { managed::QueueMode::Lifo } else { managed::QueueMode::Fifo }).build().unwrap()
 }
 
 /// Blocking get that can be cancelled by the controller.
@@ -401,8 +406,10 @@ fn run_sweep_inner(prop: &'static str, sc: &Scenario, ctl: &Arc<Ctl>, record_onl
     let st = sc.state;
     let touches_limit = matches!(sc.a, AOp::Resize(_) | AOp::Close) || matches!(sc.b, BOp::Resize(_) | BOp::Close);
     let sh = Sh::new(prop, if touches_limit { isize::MAX } else { st.max as isize }, false, 0);
-    let pool = build(&sh, st.max);
-    let mut log: Vec<String> = vec![format!("scenario {}", sc.sig())];
+    // the queue mode alternates with the scenario (derived from its signature, so that replays agree)
+    let lifo = vh_common::fnv1a(sc.sig().as_bytes()) % 2 == 1;
+    let pool = build_mode(&sh, st.max, lifo);
+    let mut log: Vec<String> = vec![format!("scenario {} queue_mode={}", sc.sig(), if lifo { "Lifo" } else { "Fifo" })];
     // ---- set-up, single threaded, no schedule control
     let mut main_held: Vec<TObject> = Vec::new();
     let mut a_obj: Option<TObject> = None;
@@ -985,7 +992,7 @@ pub struct ChaosCfg {
 pub fn run_chaos(prop: &'static str, cfg: ChaosCfg, seed: u64) -> ChaosOut {
     let limit = if cfg.resize || cfg.close { isize::MAX } else { cfg.max_size as isize };
     let sh = Sh::new(prop, limit, true, cfg.p_fail);
-    let pool = build(&sh, cfg.max_size);
+    let pool = build_mode(&sh, cfg.max_size, seed % 2 == 1);
     let ctl = Ctl::new(if cfg.hammer { CtlMode::Hammer } else { CtlMode::Chaos }, "", 0);
     let resizes: Arc<Mutex<Vec<usize>>> = Arc::new(Mutex::new(vec![cfg.max_size]));
     let waited = Arc::new(AtomicUsize::new(0));
